@@ -621,7 +621,9 @@ def prepare_file_offset_table(data_file_path: str) -> Optional[int]:
         console.info("Preparing file offset table for [%s] ... " % data_file_path, end="", flush=True)
         line_number = 0
         with file_offset_table:
-            with open(data_file_path, encoding="utf-8") as data_file:
+            # lines end at "\n" only, as for the readers of this file (mmap); with universal newlines a trailing "\r" would make
+            # tell() return an opaque cookie instead of a byte offset
+            with open(data_file_path, encoding="utf-8", newline="\n") as data_file:
                 while True:
                     line = data_file.readline()
                     if len(line) == 0:
